@@ -1,7 +1,6 @@
 (* Correspondence check for C03: model output vs. implementation output. *)
-From GV Require Import Base.Prelude Model.C03.
+From GV Require Export Base.Prelude Model.C03.
 
-Definition R a s d si di t := {| r_atom := a; r_s := s; r_d := d; r_si := si; r_di := di; r_t := t |}.
 
 (* atoms (outer, inner); implementation's event rows; states_prev / states_next per atom *)
 Definition case := (list (list Z * list Z) * list row * list (list Z) * list (list Z))%type.
